@@ -357,9 +357,30 @@ fn run_c07(st: &mut super::State, f: &[&str]) -> String {
     r.unwrap_or_else(|_| "panic".to_string())
 }
 
+/// Every string field of the line is valid UTF-8 (a shrunk replay may cut a multi-byte character in half;
+/// such a line is not a case of the API, which takes `&str`).
+fn strings_ok(f: &[&str]) -> bool {
+    let ok = |h: &str| h == "-" || h == "~" || String::from_utf8(unhex(h)).is_ok();
+    let pairs_ok = |l: &str, from: usize| l == "~" || l.split(',').all(|p| p.split(':').skip(from).all(|x| ok(x)));
+    if f.len() < 2 {
+        return false;
+    }
+    match f[1] {
+        "rt" | "rtd" | "sec" | "frombytes" | "fromarchive" => f.len() >= 6 && ok(f[4]) && pairs_ok(f[5], 0),
+        "hs" => f.len() >= 8 && ok(f[4]) && pairs_ok(f[5], 0) && pairs_ok(f[7], 1),
+        "fa" => f.len() >= 6 && pairs_ok(f[5], 1),
+        "set" => f.len() >= 4 && ok(f[2]) && ok(f[3]),
+        "del" | "has" | "get" | "title" | "setget" => f.len() >= 3 && ok(f[2]),
+        _ => true,
+    }
+}
+
 pub fn run_line(st: &mut super::State, line: &str) -> String {
     let f: Vec<&str> = line.split(' ').collect();
     let id = f[0];
+    if !strings_ok(&f) {
+        return format!("{} bad-case not-utf8", id);
+    }
     let out = if id.starts_with("c07") && f[1] != "rtd" {
         run_c07(st, &f)
     } else {
@@ -628,6 +649,77 @@ fn gen_c06(rng: &mut Rng, tier: &str, lines: &mut Vec<String>) {
         }
         lines.push(hs_line(&mut n, f, e, &title, &entries, src, &ops));
     }
+    // --- size thresholds (2^8, 2^15 UTF-16 units = 2^16 bytes, 2^16 Shift-JIS bytes): messages, titles and keys whose
+    // encoded length is just below / at / above them, incl. a double-byte character (or a surrogate pair)
+    // straddling the boundary, as first / middle / last entry; archives with more than 255 entries.
+    // quick: a representative handful; thorough: the sweep.
+    {
+        // ASCII filler with a visible period, so that a shifted window is not masked by a uniform string
+        let fill = |len: usize| -> String { (0..len).map(|i| (b'a' + (i % 23) as u8) as char).collect() };
+        // legacy message / title / key of exactly `bytes` Shift-JIS bytes whose last character is double-byte and
+        // starts at byte `bytes - 2` (straddles `bytes - 1`)
+        let sj_straddle = |bytes: usize| -> String { fill(bytes - 2) + "\u{30DE}" };
+        // UTF-16 message of exactly `units` units whose last scalar is a surrogate pair starting at unit `units - 2`
+        let u_straddle = |units: usize| -> String { fill(units - 2) + "\u{1F600}" };
+        let small: Vec<usize> = vec![255, 256, 257];
+        let big_units: Vec<usize> = if thorough { vec![32766, 32767, 32768, 32769, 65535, 65536, 65537] } else { vec![32767, 32768] };
+        let big_bytes: Vec<usize> = if thorough { vec![65534, 65535, 65536, 65537, 65538] } else { vec![65535, 65536] };
+        let mut k = 0usize;
+        let mut push = |lines: &mut Vec<String>, n: &mut usize, f: &str, title: &str, long_key: Option<&str>, m: &str| {
+            // rotate endianness and the position of the long message
+            let e = if k % 2 == 0 { "L" } else { "B" };
+            let key = long_key.unwrap_or("long").to_string();
+            let entries = match k % 3 {
+                0 => vec![(key, m.to_string()), (s("z"), s("tail"))],
+                1 => vec![(s("a"), s("head")), (key, m.to_string()), (s("z"), s(""))],
+                _ => vec![(s("a"), s("")), (key, m.to_string())],
+            };
+            k += 1;
+            lines.push(rt_line(n, f, e, title, &entries));
+        };
+        for &len in &small {
+            push(lines, &mut n, "S", "t", None, &fill(len));
+            push(lines, &mut n, "U", "t", None, &fill(len));
+            push(lines, &mut n, "S", "t", None, &sj_straddle(len + 1));
+            push(lines, &mut n, "U", "t", None, &u_straddle(len + 1));
+            push(lines, &mut n, "U", &fill(len), None, "m");
+            push(lines, &mut n, "U", &sj_straddle(len + 1), None, "m");
+            push(lines, &mut n, "S", "t", Some(&fill(len)), "m");
+            push(lines, &mut n, "U", "t", Some(&sj_straddle(len + 1)), "m");
+        }
+        for &units in &big_units {
+            push(lines, &mut n, "U", "t", None, &fill(units));
+            if thorough || units == 32768 {
+                push(lines, &mut n, "U", "t", None, &u_straddle(units + 1));
+            }
+        }
+        for &bytes in &big_bytes {
+            push(lines, &mut n, "S", "t", None, &fill(bytes));
+            if thorough || bytes == 65536 {
+                push(lines, &mut n, "S", "t", None, &sj_straddle(bytes + 1));
+                push(lines, &mut n, "U", &fill(bytes), None, "m");
+            }
+            if thorough {
+                push(lines, &mut n, "U", &sj_straddle(bytes + 1), None, "m");
+                push(lines, &mut n, "S", "t", Some(&fill(bytes)), "m");
+                push(lines, &mut n, "U", "t", Some(&fill(bytes)), "m");
+            }
+        }
+        // a second use: the long message parsed after a failing parse of its own truncated image
+        {
+            let es = [(s("long"), fill(300)), (s("z"), s("tail"))];
+            let esx: Vec<String> = es.iter().map(|(k, m)| format!("{}:{}", hexs(k), hexs(m))).collect();
+            lines.push(format!("c06.{:06} sec U B {} {} tr:1,tr:300", n, hexs("t"), esx.join(",")));
+            n += 1;
+        }
+        // many entries: 256 / 257 (and 1000 in thorough) small messages
+        for &count in if thorough { &[255usize, 256, 257, 1000][..] } else { &[256usize, 257][..] } {
+            for (f, e) in [("S", "B"), ("U", "L")] {
+                let entries: Vec<(String, String)> = (0..count).map(|i| (format!("MID_{:04}", (i * 7919) % 10007), fill(i % 6))).collect();
+                lines.push(rt_line(&mut n, f, e, "many", &entries));
+            }
+        }
+    }
     // --- second use: failing parses of damaged images (lost label terminator, truncated label table / data,
     // over-declared counts, a bogus pointer entry, an unterminated last name) in the same process and thread,
     // then the ordinary round trip, judged by the ordinary oracle
@@ -812,7 +904,8 @@ fn encoding_sjis(s: &str) -> Vec<u8> {
 }
 
 const C07_KEYS: [&str; 3] = ["a", "b", "c"];
-const C07_MSGS: [&str; 4] = ["x", "\\n", "\n", "\\\\nn\\"];
+// plain (2-byte char), escape sequence, real newline between a 3-byte and a 4-byte char, backslash mix
+const C07_MSGS: [&str; 4] = ["\u{E9}", "\\n", "\u{30DE}\n\u{1F600}", "\\\\nn\\"];
 
 fn gen_c07(rng: &mut Rng, tier: &str, lines: &mut Vec<String>) {
     let thorough = tier == "thorough";
@@ -872,9 +965,54 @@ fn gen_c07(rng: &mut Rng, tier: &str, lines: &mut Vec<String>) {
             }
         }
     }
+    // --- multi-byte characters around line breaks: the published witnesses, and every order of
+    // {ASCII, 2-byte, 3-byte, 4-byte character, newline} (120 messages), each set, looked up, stored back
+    {
+        let mut msgs: Vec<String> = vec![
+            "caf\u{E9} au lait\nplease".to_string(),
+            "\u{30DE}ab\nc".to_string(),
+            "\u{30DE}\u{30EB}\u{30B9}\n\u{30B7}\u{30FC}\u{30C0}".to_string(),
+            "\u{1F600}\n\u{1F600}\n\n\u{E9}".to_string(),
+            "\u{E9}\\n\u{30DE}\\\u{1F600}n\n".to_string(),
+        ];
+        let atoms = ['A', '\u{E9}', '\u{30DE}', '\u{1F600}', '\n'];
+        let mut idx = [0usize, 1, 2, 3, 4];
+        // Heap's algorithm, iterative
+        let mut c = [0usize; 5];
+        msgs.push(idx.iter().map(|i| atoms[*i]).collect());
+        let mut i = 0;
+        while i < 5 {
+            if c[i] < i {
+                if i % 2 == 0 {
+                    idx.swap(0, i);
+                } else {
+                    idx.swap(c[i], i);
+                }
+                msgs.push(idx.iter().map(|i| atoms[*i]).collect());
+                c[i] += 1;
+                i = 0;
+            } else {
+                c[i] = 0;
+                i += 1;
+            }
+        }
+        for (mi, m) in msgs.iter().enumerate() {
+            let id = format!("c07.{:07}", n);
+            n += 1;
+            lines.push(format!("{} new {} {}", id, if mi % 2 == 0 { "U" } else { "S" }, if mi % 4 < 2 { "L" } else { "B" }));
+            lines.push(format!("{} set {} {}", id, hexs("k"), hexs(m)));
+            lines.push(format!("{} get {}", id, hexs("k")));
+            lines.push(format!("{} setget {}", id, hexs("k")));
+            lines.push(format!("{} set {} {}", id, hexs("\u{30DE}\u{E9}"), hexs(m)));
+            lines.push(format!("{} get {}", id, hexs("\u{30DE}\u{E9}")));
+        }
+    }
     // --- random long histories over a 5-key pool, messages over {'\\','n','\n','x'}
     let keys = ["a", "b", "c", "MID_キイ", ""];
-    let alpha = ['\\', 'n', '\n', 'x'];
+    // messages mix ASCII, 2-, 3- and 4-byte UTF-8 characters with newlines, backslashes and `n`
+    let alpha = ['\\', 'n', '\n', '\n', 'x', '\u{E9}', '\u{30DE}', '\u{1F600}'];
+    // what a constructor serialises must stay inside the Shift-JIS sub-codec
+    let calpha = ['\\', 'n', '\n', 'x', '\u{30DE}'];
     let count = if thorough { 4000 } else { 300 };
     for _ in 0..count {
         let id = format!("c07.{:07}", n);
@@ -885,12 +1023,12 @@ fn gen_c07(rng: &mut Rng, tier: &str, lines: &mut Vec<String>) {
             0 => lines.push(format!("{} new {} {}", id, cf, ce)),
             c => {
                 let tl = rng.range(0, 3);
-                let t: String = (0..tl).map(|_| *rng.pick(&alpha)).collect();
+                let t: String = (0..tl).map(|_| *rng.pick(&calpha)).collect();
                 let ne = rng.range(0, 3) as usize;
                 let es: Vec<String> = (0..ne)
                     .map(|_| {
                         let ml = rng.range(0, 4);
-                        let m: String = (0..ml).map(|_| *rng.pick(&alpha)).collect();
+                        let m: String = (0..ml).map(|_| *rng.pick(&calpha)).collect();
                         format!("{}:{}", hexs(*rng.pick(&keys)), hexs(&m))
                     })
                     .collect();
